@@ -72,4 +72,4 @@ if __name__ == "__main__":
             continue
         res = run(sid, tier, "--in-repo" in sys.argv)
         for p, r in res.items():
-            print("%-28s %s %s exit=%d %ss %s" % (sid, p, "CAUGHT" if r["caught"] else "MISSED", r["exit"], r["wall_s"], r["violations"][:2]))
+            print("%-28s %s %s exit=%s %ss %s" % (sid, p, "CAUGHT" if r["caught"] else "MISSED", r["exit"], r.get("wall_s"), r["violations"][:2]))
